@@ -952,7 +952,11 @@ func shuffled(t *rapid.T, label string, ps []kv) []kv {
 	return perm
 }
 
-var badValues = []string{"7", "16", "0", "255", "8x", "x", ":", "1:", "99999999999999999999", "18446744073709551626",
+// badValues: every value outside the literal decimals 8..15. Leading-zero
+// spellings whose numeric value is outside 8..15 as well ("01", "07", "016")
+// are malformed under either reading; those with a value inside ("08", "015")
+// stay open.
+var badValues = []string{"1", "2", "3", "6", "17", "20", "80", "99", "100", "150", "01", "001", "00", "07", "016", "099", "1.", "7", "16", "0", "255", "8x", "x", ":", "1:", "99999999999999999999", "18446744073709551626",
 	"18446744073709551631", "10000000000000000008", "-8", "+8", "8.0", "1e1", "0x8", "8 ", " 8", "1 0", "15,", ";", "<", "=", ">", "?", "1?", "9:"}
 
 // malformations builds permessage-deflate elements that §7.1 says must be
@@ -1302,7 +1306,7 @@ func TestMalformedTable(t *testing.T) {
 
 	// Open: leading zeros, empty quoted value. Counted, not asserted.
 	for _, k := range []string{kSMWB, kCMWB} {
-		for _, v := range []string{"08", "010", "0015", "00000000000000000010"} {
+		for _, v := range []string{"08", "09", "010", "015", "0015", "00000000000000000010"} {
 			var p wsflate.Parameters
 			if p.Parse(direct(ext{extName, []kv{{k, v}}})) == nil {
 				hx.Class("open/leading-zero-accepted")
